@@ -18,7 +18,7 @@ from harness import nnprobe as P
 PROP = "C14"
 HEADER = "Require Import PF.Lib.Tensor PF.Model.Layers PF.Model.LayersRun."
 MODEL_TARGETS = ["Model/LayersRun.vo"]
-SHARD = 12
+SHARD = 8
 RULE = ("one case = (model of the zoo, option variant, task type, explicit small dataset with missing cells and "
         ">= 2 columns per used stype, a parameter-state history eval -> (train 1-3 SGD steps -> eval)* of 0-3 rounds "
         "on one model object with previously used and new batch sizes re-scored after every round, index lists); "
@@ -116,18 +116,35 @@ def draw_opts(rng, model, num_enc):
     return o
 
 
-def gen_case(rng, model, opts, task, big=False, history=None):
+GHOST = 512
+# batch sizes at the boundaries of the ghost-batch chunking (1, 2, 3, 4, 5 virtual batches)
+BIG_SIZES_QUICK = [[GHOST, 2 * GHOST + 1], [GHOST + 1, 3 * GHOST + 1], [2 * GHOST]]
+BIG_SIZES_THOROUGH = [GHOST - 1, GHOST, GHOST + 1, 2 * GHOST - 1, 2 * GHOST, 2 * GHOST + 1, 1300, 3 * GHOST, 3 * GHOST + 1,
+                      1700, 4 * GHOST, 4 * GHOST + 1]
+
+
+def chunk_boundaries(m):
+    """First / last row of every chunk torch.chunk(x, ceil(m / 512)) makes."""
+    nch = -(-m // GHOST)
+    cs = -(-m // nch)
+    rows = {0, m - 1}
+    for k in range(1, nch):
+        rows |= {k * cs - 1, k * cs}
+    return sorted(r for r in rows if 0 <= r < m)
+
+
+def gen_case(rng, model, opts, task, big=False, history=None, n_num=None, n_cat=None):
     opts = dict(opts)
-    n = rng.randint(3, 6)
+    n = rng.wpick([(1, 2), (3, 3), (3, 4), (3, 5), (3, 6)])
     st = opts.get("stypes", "both")
-    if model == "ExcelFormer" or st == "num":
+    if n_num is not None or n_cat is not None:
+        n_num, n_cat = n_num or 0, n_cat or 0
+    elif model == "ExcelFormer" or st == "num":
         n_num, n_cat = rng.randint(2, 4), 0
     elif st == "cat":
         n_num, n_cat = 0, rng.randint(2, 4)
     else:
-        n_num, n_cat = 2, 2
-        if rng.chance(0.3):
-            n_num = 3
+        n_num, n_cat = rng.pick([2, 3, 3, 4]), 2
     data = P.gen_data(rng, n, n_num, n_cat, task, rng.pick([0.2, 0.4]))
     idxs = []
     rows = list(range(n))
@@ -145,11 +162,11 @@ def gen_case(rng, model, opts, task, big=False, history=None):
     case = {"model": model, "opts": opts, "task": task, "data": data, "history": history, "steps": sum(history),
             "seed": rng.randrange(1 << 30), "idxs": idxs, "kind": "small", "dtype": dtype}
     if big:
-        # a batch larger than the 512-row ghost batch: the frame's rows repeated
-        m = 512 + rng.randint(1, 40)
+        # a batch at / beyond the 512-row ghost batch: the frame's rows repeated; rows at every chunk boundary probed
+        m = big if isinstance(big, int) and big > 1 else GHOST + rng.randint(1, 40)
         case["kind"] = "big"
         case["big_idx"] = [rng.randrange(n) for _ in range(m)]
-        case["probe_rows"] = sorted({0, 1, 511, 512, m - 1, rng.randrange(m)})
+        case["probe_rows"] = sorted(set(chunk_boundaries(m)) | {rng.randrange(m)})
     return case
 
 
@@ -176,13 +193,23 @@ def generate(rng, tier):
             for enc in encs:
                 cases.append(gen_case(rng, model, draw_opts(rng, model, enc), tasks[k % 3], history=hist(rng)))
                 k += 1
-        # batches larger than the ghost batch size: TabNet (and one other model as a control)
-        for _ in range(2):
-            cases.append(gen_case(rng, "TabNet", draw_opts(rng, "TabNet", rng.pick(num_classes + [None])), tasks[k % 3],
-                                  big=True, history=hist(rng)))
+        # boundary configurations: heads == channels == number of columns
+        cases.append(gen_case(rng, "ExcelFormer", dict(draw_opts(rng, "ExcelFormer", None), heads=4, channels=4),
+                              tasks[k % 3], history=hist(rng), n_num=4))
+        cases.append(gen_case(rng, "TabTransformer", dict(draw_opts(rng, "TabTransformer", None), heads=4, channels=4,
+                                                          pad=rng.randint(1, 3), stypes="both"),
+                              tasks[(k + 1) % 3], history=hist(rng), n_num=2, n_cat=4))
+        # batches at the boundaries of the ghost-batch chunking: TabNet (and one other model as a control)
+        sizes = BIG_SIZES_QUICK[rep % 3] if tier == "quick" else [BIG_SIZES_THOROUGH[(2 * rep) % 12],
+                                                                   BIG_SIZES_THOROUGH[(2 * rep + 1) % 12]]
+        for m in sizes:
+            o = draw_opts(rng, "TabNet", rng.pick(num_classes + [None]))
+            if m > 2 * GHOST:
+                o.update(channels=4, attn_channels=4, layers=min(o["layers"], 2))     # keep the large ones cheap
+            cases.append(gen_case(rng, "TabNet", o, tasks[k % 3], big=m, history=hist(rng)))
             k += 1
-        cases.append(gen_case(rng, "MLP", dict(draw_opts(rng, "MLP", None), norm="batch_norm"), tasks[k % 3], big=True,
-                              history=hist(rng)))
+        cases.append(gen_case(rng, "MLP", dict(draw_opts(rng, "MLP", None), norm="batch_norm"), tasks[k % 3],
+                              big=GHOST + 1, history=hist(rng)))
     return cases
 
 
@@ -309,7 +336,8 @@ def _probe(case, ds, tf0, model, outc):
     if case["kind"] == "big":
         small = P.fwd(model, tf0)
         meta.append({"what": "big-vs-small", "diff": P.maxdiff(out, small[torch.tensor(case["big_idx"])])})
-        meta.append({"what": "prefix-512", "diff": P.maxdiff(P.fwd(model, tf[:512]), out[:512])})
+        if n > GHOST:
+            meta.append({"what": "prefix-512", "diff": P.maxdiff(P.fwd(model, tf[:GHOST]), out[:GHOST])})
     o["meta"] = meta
     # footprints, with re-drawn parameters / sizes while a predicted dependency is unmeasured
     mname = case["model"]
@@ -376,6 +404,9 @@ def _probe(case, ds, tf0, model, outc):
     o["rows"] = [[r, sorted(row_changed[r])] for r in probe_rows]
     o["cols"] = col_reached
     o["probe_fp"] = probe_fp
+    # complete: every dependency the architecture allows was measured within the trials
+    o["probe_complete"] = [None if e is None else all(m[j][k] or not e[j][k] for j in range(len(e)) for k in range(len(e[j])))
+                           for e, m in zip(expect, probe_fp)]
     o["col_leak"] = col_leak
     o["trials"] = trials
     return o
@@ -495,6 +526,30 @@ def stats(cases, obss):
         if not c.get("history") and "num_enc" in o_:
             dd = d.setdefault("zero_step_encoders", {})
             dd[f"{c['model']}/{o_['num_enc']}"] = dd.get(f"{c['model']}/{o_['num_enc']}", 0) + 1
+        bd = d.setdefault("boundaries", {})
+
+        def hit(name):
+            bd[name] = bd.get(name, 0) + 1
+        for kind in c["data"].get("num_kinds", []):
+            hit("num_col:" + kind)
+            if o_.get("num_enc") == "LinearBucketEncoder" and kind in P.NUM_KINDS_MIN_TIED:
+                hit("bucket_encoder_with_min_tied_column")
+        if c["data"]["n"] == 2:
+            hit("frame_of_2_rows")
+        hit(f"num_cols:{len(c['data']['num'])}")
+        hit(f"cat_cols:{len(c['data']['cat'])}")
+        if c["kind"] == "big":
+            m_ = len(c["big_idx"])
+            hit(f"ghost_chunks:{-(-m_ // GHOST)}")
+            for name, val in (("ghost", GHOST), ("ghost+1", GHOST + 1), ("2*ghost", 2 * GHOST), ("2*ghost+1", 2 * GHOST + 1)):
+                if m_ == val:
+                    hit("batch==" + name)
+        if o_.get("heads") is not None and o_.get("heads") == o_.get("channels"):
+            hit("heads==channels")
+        if c["model"] == "ExcelFormer" and o_.get("heads") == len(c["data"]["num"]):
+            hit("heads==num_cols")
+        if c["model"] == "TabTransformer" and o_.get("heads") == len(c["data"]["cat"]):
+            hit("heads==num_cols")
         d.setdefault("dtypes", {})
         d["dtypes"][c.get("dtype", "float64")] = d["dtypes"].get(c.get("dtype", "float64"), 0) + 1
         for k, v in (("models", c["model"]), ("tasks", c["task"]), ("steps", c["steps"]), ("kinds", c["kind"])):
@@ -503,7 +558,16 @@ def stats(cases, obss):
             d["errors"] += 1
             continue
         d["batch_sizes"][str(o["n"])] = d["batch_sizes"].get(str(o["n"]), 0) + 1
+        for ph in o.get("hist", []):
+            for rn in ph["runs"]:
+                d["boundaries"]["scored_batch:" + str(min(rn["size"], 3)) + ("+" if rn["size"] >= 3 else "")] = 1
+        if o.get("empty_shape") is not None:
+            d["boundaries"]["scored_batch:0"] = 1
         d["with_missing"] += int(o["has_missing"])
+        for cp in (o.get("probe_complete") or [])[:-1]:
+            if cp is not None:
+                d["probes_total"] = d.get("probes_total", 0) + 1
+                d["probes_incomplete"] = d.get("probes_incomplete", 0) + int(not cp)
         d["trials_hist"][str(o["trials"])] = d["trials_hist"].get(str(o["trials"]), 0) + 1
     return d
 
@@ -546,7 +610,10 @@ def coq_term(case, obs, model=None):
     if model is None and constant_prediction(case, obs):
         return None      # recorded finding column-dead:*: the footprint is empty, reported by the oracle
     rows = "[" + "; ".join(f"({r}, {P.cnats(ch)})" for r, ch in obs["rows"]) + "]"
-    fps = "[" + "; ".join("None" if m is None else f"Some {P.cbmat(m)}" for m in obs["probe_fp"]) + "]"
+    comp = obs.get("probe_complete") or [True] * len(obs["probe_fp"])
+    comp = comp[:-1] + [True]        # the final output is always compared exactly
+    fps = "[" + "; ".join("None" if m is None else f"Some ({C.cbool(bool(cp))}, {P.cbmat(m)})"
+                          for m, cp in zip(obs["probe_fp"], comp)) + "]"
     return f"model_fp_ok {obs['ncols']} ({coq_model_term(case, obs, model)}) {obs['n']} {rows} {fps}"
 
 
@@ -688,6 +755,18 @@ def sanity(cases, obss):
         for cls in drawn:
             if cls != "None" and d.get("zero_step_encoders", {}).get(f"{m}/{cls}", 0) == 0:
                 probs.append(f"{m} with {cls} never scored at 0 training steps")
+    if d.get("probes_total", 0) and d.get("probes_incomplete", 0) > 0.05 * d["probes_total"]:
+        probs.append(f"{d['probes_incomplete']} of {d['probes_total']} intermediate probes were compared for soundness only")
+    bd = d.get("boundaries", {})
+    need = (["num_col:" + k for k in P.NUM_KINDS_MIN_TIED + ["mid_ties", "top_ties", "single_value", "generic"]]
+            + ["bucket_encoder_with_min_tied_column", "frame_of_2_rows", "heads==channels", "heads==num_cols",
+               "scored_batch:0", "scored_batch:1", "scored_batch:2", "ghost_chunks:1", "ghost_chunks:2", "ghost_chunks:3",
+               "batch==ghost", "batch==ghost+1"])
+    if not any(k.startswith("ghost_chunks:") and int(k.split(":")[1]) >= 4 for k in bd):
+        probs.append("no TabNet batch with four or more ghost batches")
+    for k in need:
+        if bd.get(k, 0) == 0:
+            probs.append(f"boundary {k} never hit")
     for m, cls in sorted(KNOWN_DEAD):
         hs = [bool(c.get("history")) for c in cases if c is not None and c["model"] == m and c["opts"].get("num_enc") == cls]
         if not (any(hs) and not all(hs)):
